@@ -194,6 +194,8 @@ pub fn run(ctx: &mut Ctx) {
                 let fits = !ok || (size > plen && buf[8..8 + plen] == *cp.as_bytes() && buf[8 + plen] == 0);
                 ctx.out.oracle(fenced && fits, "ffi-wrote-outside-callers-buffer", &format!("SFileGetArchiveName with buffer_size={size} (name is {plen} bytes + terminator): returned {ok}, fence intact={fenced}"));
                 ctx.out.stat("c19.buffer_sweep.archive_name");
+                // Model.C19Buf: what is written, or that nothing is
+                ctx.out.case(&format!("c19buf archname {} {size}", hex(cp.as_bytes())), &(if ok { format!("ok {}", hex(&buf[8..8 + (plen + 1).min(buf.len() - 8)])) } else { "err".to_string() }));
             }
             let cn = CString::new("a.txt").unwrap();
             let mut f: HANDLE = std::ptr::null_mut();
@@ -292,9 +294,13 @@ pub fn run(ctx: &mut Ctx) {
         // next to it: names longer than the find-data buffer whose byte 259 falls inside a 2-, 3- and 4-byte character, and
         // one where a character ends exactly there (enumeration must neither crash nor overrun)
         let mut lb = ArchiveBuilder::new().listfile_option(ListfileOption::Generate).add_file_data(b"x".to_vec(), &long);
+        let mut all_names: Vec<String> = vec![long.clone(), "(listfile)".to_string()];
         for (pre, ch) in [(258usize, "\u{e9}"), (258, "\u{20ac}"), (257, "\u{20ac}"), (258, "\u{1f600}"), (257, "\u{1f600}"), (256, "\u{1f600}"), (257, "\u{e9}")] {
-            lb = lb.add_file_data(b"y".to_vec(), &format!("{}{}{}.dat", "u".repeat(pre), ch, "t".repeat(20)));
+            let n = format!("{}{}{}.dat", "u".repeat(pre), ch, "t".repeat(20));
+            lb = lb.add_file_data(b"y".to_vec(), &n); all_names.push(n);
         }
+        // ordinary names with zero, one and several separators (where szPlainName has to point)
+        for n in ["plain.txt", "one\\level.txt", "a\\b\\c\\deep.bin", "trailing\\sep\\x"] { lb = lb.add_file_data(b"z".to_vec(), n); all_names.push(n.to_string()); }
         lb.build(&p).expect("build long");
         let cp = CString::new(p.to_str().unwrap_or("")).unwrap();
         let mut a: HANDLE = std::ptr::null_mut();
@@ -306,6 +312,8 @@ pub fn run(ctx: &mut Ctx) {
                 let ok = unsafe { SFileGetFileName(f, buf.as_mut_ptr()) };
                 let over = buf[260..].iter().any(|b| *b != CANARY as i8);
                 ctx.out.oracle(!over, "ffi-getfilename-overruns-max-path", &format!("name of {} bytes, returned {ok}", long.len()));
+                let written: Vec<u8> = { let k = buf.iter().position(|b| *b == 0).map(|k| k + 1).unwrap_or(buf.len()); buf[..k].iter().map(|b| *b as u8).collect() };
+                ctx.out.case(&format!("c19buf filename {}", hex(long.as_bytes())), &(if ok { format!("ok {}", hex(&written)) } else { "err".to_string() }));
             }
             let cm = CString::new("*").unwrap();
             let mut fd: SFILE_FIND_DATA = unsafe { std::mem::zeroed() };
@@ -315,6 +323,13 @@ pub fn run(ctx: &mut Ctx) {
                     let base = fd.c_file_name.as_ptr() as usize;
                     let plain = fd.sz_plain_name as usize;
                     ctx.out.oracle(plain >= base && plain < base + 260, "ffi-plain-name-outside-buffer", &format!("offset {}", plain.wrapping_sub(base)));
+                    // Model.C19Buf.findData for the entry this is (identified by its first 259 bytes)
+                    let arr: Vec<u8> = fd.c_file_name.iter().map(|b| *b as u8).collect();
+                    let shown: Vec<u8> = arr.iter().copied().take_while(|b| *b != 0).collect();
+                    if let Some(full) = all_names.iter().find(|n| n.as_bytes()[..n.len().min(259)] == shown[..]) {
+                        ctx.out.case(&format!("c19buf finddata {}", hex(full.as_bytes())), &format!("{} {}", hex(&arr), plain.wrapping_sub(base)));
+                        ctx.out.stat("c19.finddata_model");
+                    }
                     if !unsafe { SFileFindNextFile(r, &mut fd) } { break; }
                 }
                 let _ = unsafe { SFileFindClose(r) };
